@@ -4276,4 +4276,309 @@ theorem analysis_defaults_match' : Coba.Generated.C18.analysisDefaults = analysi
 theorem confidence_dispatch_match' : Coba.Generated.C18.confDispatch = confDispatchM ∧
     Coba.Generated.C18.confDispatch.map (·.1) = errNamesM := by decide
 
+
+/-! ## Part 17 (Phase 6): `sorted()` returns a sorted permutation; the outcome does not depend on the insertion order -/
+
+/-- the value is a number or a string (the two classes on which `<` is a strict total order) -/
+def NS (a : PyVal) : Prop := pyClass a = .num ∨ pyClass a = .str
+
+theorem pyLe_trans_ns {a b d : PyVal} (h1 : pyLe a b) (h2 : pyLe b d) (hn : NS a ∨ NS d) : pyLe a d := by
+  cases a <;> cases b <;> cases d <;> simp [pyLe, pyLt, NS, pyClass] at h1 h2 hn ⊢
+  · exact le_trans h1 h2
+  · exact le_trans h1 h2
+
+theorem pyLe_of_lt_ns {a b : PyVal} (h : pyLt a b = .ok true) (hn : NS a ∨ NS b) : pyLe a b := by
+  cases a <;> cases b <;> simp [pyLe, pyLt, NS, pyClass] at h hn ⊢
+  · exact le_of_lt h
+  · exact le_of_lt h
+
+theorem pyLe_antisymm_ns {a b : PyVal} (h1 : pyLe a b) (h2 : pyLe b a) (hn : NS a ∨ NS b) : a = b := by
+  cases a <;> cases b <;> simp [pyLe, pyLt, NS, pyClass] at h1 h2 hn ⊢
+  · exact le_antisymm h1 h2
+  · exact le_antisymm h1 h2
+
+theorem pyBinSort_perm (rest : List PyVal) : ∀ (pre out : List PyVal), pyBinSort pre rest = .ok out →
+    out.Perm (pre ++ rest) := by
+  induction rest with
+  | nil => intro pre out h; simp [pyBinSort] at h; subst h; simp
+  | cons v rest ih =>
+    intro pre out h
+    simp only [pyBinSort] at h
+    split at h
+    · cases h
+    · rename_i k hk
+      refine (ih _ _ h).trans ?_
+      have h1 : (pre.take k ++ v :: pre.drop k).Perm (v :: pre) := by
+        have : (pre.take k ++ v :: pre.drop k).Perm (v :: (pre.take k ++ pre.drop k)) := List.perm_middle
+        simpa using this
+      exact (h1.append_right rest).trans (by simpa using (List.perm_middle (l₁ := pre) (a := v) (l₂ := rest)).symm)
+
+theorem pySorted_perm (l out : List PyVal) (h : pySorted l = .ok out) : out.Perm l := by
+  match l, h with
+  | [], h => simp [pySorted] at h; subst h; exact List.Perm.refl _
+  | [a], h => simp [pySorted] at h; subst h; exact List.Perm.refl _
+  | a :: b :: rest, h =>
+    simp only [pySorted] at h
+    split at h
+    · cases h
+    · split at h
+      · cases h
+      · rename_i r rest' hr
+        have hsplit := (pyRunDesc_class rest b r rest' hr).2
+        refine (pyBinSort_perm _ _ _ h).trans ?_
+        rw [hsplit]
+        exact (List.reverse_perm _).append_right rest' |>.trans (by simp)
+    · split at h
+      · cases h
+      · rename_i r rest' hr
+        have hsplit := (pyRunAsc_class rest b r rest' hr).2
+        refine (pyBinSort_perm _ _ _ h).trans ?_
+        rw [hsplit]; simp
+
+theorem pyBsearch_spec (v : PyVal) (pre : List PyVal) (hs : pre.Pairwise pyLe) (hv : NS v) :
+    ∀ (f l r k : Nat), l ≤ r → r ≤ pre.length → r - l ≤ f → (∀ x ∈ pre.take l, pyLe x v) → (∀ y ∈ pre.drop r, pyLe v y) →
+      pyBsearch v pre f l r = .ok k → (∀ x ∈ pre.take k, pyLe x v) ∧ (∀ y ∈ pre.drop k, pyLe v y) := by
+  intro f
+  induction f with
+  | zero =>
+    intro l r k hlr hr hf hlo hhi h
+    simp only [pyBsearch, Except.ok.injEq] at h
+    subst h
+    have : l = r := by omega
+    subst this
+    exact ⟨hlo, hhi⟩
+  | succ f ih =>
+    intro l r k hlr hr hf hlo hhi h
+    simp only [pyBsearch] at h
+    split at h
+    · rename_i hlt
+      have hp : l + (r - l) / 2 < pre.length := by omega
+      rw [List.getElem?_eq_getElem hp] at h
+      simp only at h
+      have hsplit : pre = pre.take (l + (r - l) / 2) ++ pre[l + (r - l) / 2] :: pre.drop (l + (r - l) / 2 + 1) := by
+        rw [← List.drop_eq_getElem_cons hp, List.take_append_drop]
+      have hs' := hs
+      rw [hsplit, List.pairwise_append] at hs'
+      obtain ⟨_, hs2, hs3⟩ := hs'
+      rw [List.pairwise_cons] at hs2
+      split at h
+      · cases h
+      · rename_i hq
+        refine ih _ _ k (by omega) (by omega) (by omega) hlo ?_ h
+        intro y hy
+        rw [List.drop_eq_getElem_cons hp] at hy
+        rcases List.mem_cons.mp hy with rfl | hy
+        · exact pyLe_of_lt_ns hq (Or.inl hv)
+        · exact pyLe_trans_ns (pyLe_of_lt_ns hq (Or.inl hv)) (hs2.1 y hy) (Or.inl hv)
+      · rename_i hq
+        refine ih _ _ k (by omega) hr (by omega) ?_ hhi h
+        intro x hx
+        rw [List.take_succ_eq_append_getElem hp] at hx
+        rcases List.mem_append.mp hx with hx | hx
+        · exact pyLe_trans_ns (hs3 x hx _ List.mem_cons_self) hq (Or.inr hv)
+        · simp only [List.mem_singleton] at hx
+          subst hx
+          exact hq
+    · simp only [Except.ok.injEq] at h
+      subst h
+      have : l = r := by omega
+      subst this
+      exact ⟨hlo, hhi⟩
+
+theorem pairwise_insert {pre : List PyVal} {v : PyVal} {k : Nat} (hs : pre.Pairwise pyLe)
+    (hlo : ∀ x ∈ pre.take k, pyLe x v) (hhi : ∀ y ∈ pre.drop k, pyLe v y) :
+    (pre.take k ++ v :: pre.drop k).Pairwise pyLe := by
+  have hs' := hs
+  rw [← List.take_append_drop k pre, List.pairwise_append] at hs'
+  obtain ⟨h1, h2, h3⟩ := hs'
+  rw [List.pairwise_append]
+  refine ⟨h1, List.pairwise_cons.mpr ⟨hhi, h2⟩, ?_⟩
+  intro a ha b hb
+  rcases List.mem_cons.mp hb with rfl | hb
+  · exact hlo a ha
+  · exact h3 a ha b hb
+
+theorem pyBinSort_sorted (rest : List PyVal) : ∀ (pre out : List PyVal), pre.Pairwise pyLe → (∀ v ∈ rest, NS v) →
+    pyBinSort pre rest = .ok out → out.Pairwise pyLe := by
+  induction rest with
+  | nil => intro pre out hs _ h; simp [pyBinSort] at h; subst h; exact hs
+  | cons v rest ih =>
+    intro pre out hs hn h
+    simp only [pyBinSort] at h
+    split at h
+    · cases h
+    · rename_i k hk
+      obtain ⟨hlo, hhi⟩ := pyBsearch_spec v pre hs (hn v (by simp)) pre.length 0 pre.length k (by omega) (le_refl _) (by omega)
+        (by simp) (by simp) hk
+      exact ih _ _ (pairwise_insert hs hlo hhi) (fun w hw => hn w (by simp [hw])) h
+
+theorem pyRunAsc_sorted (vs : List PyVal) : ∀ (last : PyVal) (r rest : List PyVal), NS last →
+    pyRunAsc last vs = .ok (r, rest) → (last :: r).Pairwise pyLe := by
+  induction vs with
+  | nil => intro last r rest _ h; simp [pyRunAsc] at h; obtain ⟨rfl, rfl⟩ := h; simp
+  | cons v vs ih =>
+    intro last r rest hn h
+    simp only [pyRunAsc] at h
+    split at h
+    · cases h
+    · simp only [Except.ok.injEq, Prod.mk.injEq] at h
+      obtain ⟨rfl, rfl⟩ := h
+      simp
+    · rename_i hq
+      split at h
+      · cases h
+      · rename_i r' rest' hr
+        simp only [Except.ok.injEq, Prod.mk.injEq] at h
+        obtain ⟨rfl, rfl⟩ := h
+        have hlv : pyLe last v := hq
+        have hnv : NS v := by
+          cases last <;> cases v <;> simp [pyLe, pyLt, NS, pyClass] at hlv hn ⊢
+        have := ih v r' rest' hnv hr
+        refine List.pairwise_cons.mpr ⟨?_, this⟩
+        intro y hy
+        rcases List.mem_cons.mp hy with rfl | hy
+        · exact hlv
+        · exact pyLe_trans_ns hlv ((List.pairwise_cons.mp this).1 y hy) (Or.inl hn)
+
+theorem pyRunDesc_sorted (vs : List PyVal) : ∀ (last : PyVal) (r rest : List PyVal), NS last →
+    pyRunDesc last vs = .ok (r, rest) → (last :: r).Pairwise (fun x y => pyLe y x) := by
+  induction vs with
+  | nil => intro last r rest _ h; simp [pyRunDesc] at h; obtain ⟨rfl, rfl⟩ := h; simp
+  | cons v vs ih =>
+    intro last r rest hn h
+    simp only [pyRunDesc] at h
+    split at h
+    · cases h
+    · simp only [Except.ok.injEq, Prod.mk.injEq] at h
+      obtain ⟨rfl, rfl⟩ := h
+      simp
+    · rename_i hq
+      split at h
+      · cases h
+      · rename_i r' rest' hr
+        simp only [Except.ok.injEq, Prod.mk.injEq] at h
+        obtain ⟨rfl, rfl⟩ := h
+        have hlv : pyLe v last := pyLe_of_lt_ns hq (Or.inr hn)
+        have hnv : NS v := by
+          cases last <;> cases v <;> simp [pyLe, pyLt, NS, pyClass] at hlv hn ⊢
+        have := ih v r' rest' hnv hr
+        refine List.pairwise_cons.mpr ⟨?_, this⟩
+        intro y hy
+        rcases List.mem_cons.mp hy with rfl | hy
+        · exact hlv
+        · exact pyLe_trans_ns ((List.pairwise_cons.mp this).1 y hy) hlv (Or.inr hn)
+
+theorem pySorted_sorted (l out : List PyVal) (hn : ∀ v ∈ l, NS v) (h : pySorted l = .ok out) : out.Pairwise pyLe := by
+  match l, hn, h with
+  | [], _, h => simp [pySorted] at h; subst h; simp
+  | [a], _, h => simp [pySorted] at h; subst h; simp
+  | a :: b :: rest, hn, h =>
+    have hna : NS a := hn a (by simp)
+    have hnb : NS b := hn b (by simp)
+    simp only [pySorted] at h
+    split at h
+    · cases h
+    · rename_i hq
+      split at h
+      · cases h
+      · rename_i r rest' hr
+        have hsplit := (pyRunDesc_class rest b r rest' hr).2
+        have hd := pyRunDesc_sorted rest b r rest' hnb hr
+        have hba : pyLe b a := pyLe_of_lt_ns hq (Or.inl hnb)
+        refine pyBinSort_sorted rest' _ out ?_ (fun w hw => hn w (by rw [hsplit]; simp [hw])) h
+        rw [List.pairwise_reverse]
+        refine List.pairwise_cons.mpr ⟨?_, hd⟩
+        intro y hy
+        rcases List.mem_cons.mp hy with rfl | hy
+        · exact hba
+        · exact pyLe_trans_ns ((List.pairwise_cons.mp hd).1 y hy) hba (Or.inr hna)
+    · rename_i hq
+      split at h
+      · cases h
+      · rename_i r rest' hr
+        have hsplit := (pyRunAsc_class rest b r rest' hr).2
+        have hd := pyRunAsc_sorted rest b r rest' hnb hr
+        have hab : pyLe a b := hq
+        refine pyBinSort_sorted rest' _ out ?_ (fun w hw => hn w (by rw [hsplit]; simp [hw])) h
+        refine List.pairwise_cons.mpr ⟨?_, hd⟩
+        intro y hy
+        rcases List.mem_cons.mp hy with rfl | hy
+        · exact hab
+        · exact pyLe_trans_ns hab ((List.pairwise_cons.mp hd).1 y hy) (Or.inl hna)
+
+/-- the outcome of `sorted()` on numbers / strings does not depend on the order in which the values arrive -/
+theorem pySorted_order_independent (l1 l2 o1 o2 : List PyVal) (hp : l1.Perm l2) (hn : ∀ v ∈ l1, NS v)
+    (h1 : pySorted l1 = .ok o1) (h2 : pySorted l2 = .ok o2) : o1 = o2 := by
+  have hn2 : ∀ v ∈ l2, NS v := fun v hv => hn v (hp.mem_iff.mpr hv)
+  have p1 := pySorted_perm l1 o1 h1
+  have p2 := pySorted_perm l2 o2 h2
+  refine List.Perm.eq_of_pairwise ?_ (pySorted_sorted l1 o1 hn h1) (pySorted_sorted l2 o2 hn2 h2) (p1.trans (hp.trans p2.symm))
+  intro a b ha _ hab hba
+  exact pyLe_antisymm_ns hab hba (Or.inl (hn a (p1.mem_iff.mp ha)))
+
+/-- whether `sorted()` raises does not depend on the arrival order either -/
+theorem pySorted_ok_perm (l1 l2 : List PyVal) (hp : l1.Perm l2) :
+    (∃ o, pySorted l1 = .ok o) ↔ (∃ o, pySorted l2 = .ok o) := by
+  have hlen := hp.length_eq
+  by_cases h2 : 2 ≤ l1.length
+  · rw [pySorted_ok_iff l1 h2, pySorted_ok_iff l2 (hlen ▸ h2)]
+    constructor
+    · rintro ⟨c, hc, h⟩; exact ⟨c, hc, fun v hv => h v (hp.mem_iff.mpr hv)⟩
+    · rintro ⟨c, hc, h⟩; exact ⟨c, hc, fun v hv => h v (hp.mem_iff.mp hv)⟩
+  · have h1 : l1.length ≤ 1 := by omega
+    have h1' : l2.length ≤ 1 := by omega
+    constructor
+    · intro _
+      match l2, h1' with
+      | [], _ => exact ⟨[], rfl⟩
+      | [a], _ => exact ⟨[a], rfl⟩
+    · intro _
+      match l1, h1 with
+      | [], _ => exact ⟨[], rfl⟩
+      | [a], _ => exact ⟨[a], rfl⟩
+
+theorem find?_perm_of_nodup_key {α β : Type} [DecidableEq β] (f : α → β) (l1 l2 : List α) (hp : l1.Perm l2)
+    (hnd : (l1.map f).Nodup) (v : β) : l1.find? (fun e => f e = v) = l2.find? (fun e => f e = v) := by
+  have hnd2 : (l2.map f).Nodup := (hp.map f).nodup_iff.mp hnd
+  cases h1 : l1.find? (fun e => f e = v) with
+  | none =>
+    rw [List.find?_eq_none] at h1
+    symm
+    rw [List.find?_eq_none]
+    intro x hx
+    exact h1 x (hp.mem_iff.mpr hx)
+  | some e =>
+    have he := List.mem_of_find?_eq_some h1
+    have hv := List.find?_some h1
+    cases h2 : l2.find? (fun e => f e = v) with
+    | none =>
+      rw [List.find?_eq_none] at h2
+      exact absurd hv (h2 e (hp.mem_iff.mp he))
+    | some e' =>
+      have he' := List.mem_of_find?_eq_some h2
+      have hv' := List.find?_some h2
+      simp only [decide_eq_true_eq] at hv hv'
+      rw [List.inj_on_of_nodup_map hnd2 (hp.mem_iff.mp he) he' (hv.trans hv'.symm)]
+
+/-- `sorted(XY.items())` inside `raw_contrast` gives the same table whatever order the dict `XY` was filled in
+(x labels numbers / strings, distinct as dict keys are) -/
+theorem orderRawPy_perm (labs : List ((Key × Key) × PyVal)) (raw1 raw2 o1 o2 : List ((Key × Key) × List (Rat × Rat)))
+    (hp : raw1.Perm raw2) (hnd : (raw1.map (fun e => labOf labs e.1)).Nodup)
+    (hn : ∀ e ∈ raw1, NS (labOf labs e.1))
+    (h1 : orderRawPy labs raw1 = .ok o1) (h2 : orderRawPy labs raw2 = .ok o2) : o1 = o2 := by
+  simp only [orderRawPy] at h1 h2
+  split at h1
+  · cases h1
+  · rename_i vs1 hs1
+    split at h2
+    · cases h2
+    · rename_i vs2 hs2
+      simp only [Except.ok.injEq] at h1 h2
+      have hvs : vs1 = vs2 := pySorted_order_independent _ _ _ _ (hp.map _)
+        (by intro v hv; obtain ⟨e, he, rfl⟩ := List.mem_map.mp hv; exact hn e he) hs1 hs2
+      subst hvs h1 h2
+      congr 1
+      funext v
+      exact find?_perm_of_nodup_key (fun e => labOf labs e.1) raw1 raw2 hp hnd v
+
 end Coba.C18
